@@ -15,8 +15,8 @@ def known_class(j, cat, text):
     f = j.fmt
     if f.codec == 0x21:
         return "KF-VOX-ODD"
-    if f.major == 0x04 and f.codec in (0x40, 0x41, 0x42):
-        return "KF-RAW-DWVW-FRAMES"
+    if f.major == 0x04 and f.codec in (0x40, 0x41, 0x42) and cat in ("frames", "eof"):
+        return "KF-RAW-DWVW-FRAMES"      # headerless: the frame count is an estimate F >= N (more frames reported / delivered than written); the first N are exact
     if f.major in (0x01, 0x13) and f.codec == 0x20 and cat in ("frames", "eof", "snapshot"):
         return "KF-WAV-GSM-PAD"
     if f.major == 0x0F and cat in ("partition", "frames", "eof", "stale"):
